@@ -77,7 +77,7 @@ func c10Drive(c *Ctx, w *world.World, recs []world.LRec, cfg c10cfg) (keys []str
 }
 
 func runC10(c *Ctx) []Violation {
-	w := world.Generate(c.T, world.GenOpts{OwnDataOnly: true, MinRecs: 2, MaxRecs: 14, Encodings: false})
+	w := genWorld(c, world.GenOpts{OwnDataOnly: true, MinRecs: 2, MaxRecs: 14, Encodings: false})
 	c.Count("world.format."+w.Format, 1)
 	c.SigMix(w.Hash())
 	cfg := c10cfg{env: baseEnv(c), emptyAt: -1, flushAt: -1}
